@@ -559,6 +559,9 @@ def user_edit_suite(ctx, env):
         body = {'username': rng.choice([before[0] if before else 'x', 'renamed%d' % trial]), 'mustChange': rng.random() < 0.5,
                 'email': 'mail%d@example.test' % trial, 'password': new_pw, 'confirmPassword': confirm if new_pw else ''}
         body.update(flags)
+        if rng.random() < 0.5:
+            # a primary key inside the body must not matter: the account is named by the URL
+            body['pk'] = rng.choice([target, pks[caller], pks['admin']])
         a = actors[caller]
         r = a.c.post('/api/users/%d' % target, json=body, headers=a.headers())
         ctx.count('http:edit-user')
